@@ -184,7 +184,30 @@ pub fn build(fields: &[Field], env: &Env) -> Vec<u8> {
 
 // ---------------------------------------------------- expand_message (RFC 9380)
 
+/// RFC 9380, 5.3.3: a DST longer than 255 octets is replaced by H("H2C-OVERSIZE-DST-" || DST)
+fn xmd_dst(dst: &[u8]) -> Vec<u8> {
+    if dst.len() <= 255 {
+        return dst.to_vec();
+    }
+    let mut h = Sha256::new();
+    Digest::update(&mut h, b"H2C-OVERSIZE-DST-");
+    Digest::update(&mut h, dst);
+    h.finalize().to_vec()
+}
+fn xof_dst(dst: &[u8]) -> Vec<u8> {
+    if dst.len() <= 255 {
+        return dst.to_vec();
+    }
+    let mut h = Shake256::default();
+    h.update(b"H2C-OVERSIZE-DST-");
+    h.update(dst);
+    let mut out = vec![0u8; 32]; // ceil(2 k / 8), k = 128
+    h.finalize_xof().read(&mut out);
+    out
+}
+
 pub fn expand_xmd_sha256(msg: &[u8], dst: &[u8], len: usize) -> Vec<u8> {
+    let dst = &xmd_dst(dst)[..];
     assert!(dst.len() <= 255 && len <= 65535);
     let ell = (len + 31) / 32;
     assert!(ell <= 255);
@@ -220,6 +243,7 @@ pub fn expand_xmd_sha256(msg: &[u8], dst: &[u8], len: usize) -> Vec<u8> {
 }
 
 pub fn expand_xof_shake256(msg: &[u8], dst: &[u8], len: usize) -> Vec<u8> {
+    let dst = &xof_dst(dst)[..];
     assert!(dst.len() <= 255 && len <= 65535);
     let mut h = Shake256::default();
     h.update(msg);
